@@ -479,6 +479,7 @@ pub fn recursion_templates() -> Vec<(&'static str, &'static str)> {
         ("data-structured-clone", "let a: any = [1]; for (let i = 0; i < N; i++) { a = [a]; } Array.isArray(structuredClone(a))"),
         ("data-array-tostring", "let a: any = [1]; for (let i = 0; i < N; i++) { a = [a]; } String(a).length"),
         ("data-cyclic-flat", "const a: any[] = [N]; a.push(a); a.flat(Infinity).length"),
+        ("data-cyclic-structured-clone", "const a: any = { n: N, l: [1] }; a.self = a; a.l.push(a); typeof structuredClone(a)"),
         ("data-cyclic-join", "const a: any[] = [N]; a.push(a); a.join().length"),
         ("data-cyclic-json", "const a: any[] = [N]; a.push(a); let r = 'ok'; try { JSON.stringify(a); } catch (e: any) { r = 'caught'; } r"),
         ("data-gc-deep-list", "let o: any = null; for (let i = 0; i < N; i++) { o = { next: o }; } const junk: any[] = []; for (let i = 0; i < 3000; i++) { junk.push({ i: i }); } o === null ? 0 : 1"),
